@@ -1,5 +1,5 @@
 """Texts of the claims made in MANIFEST.json, per property."""
-HOOK_COMMITS = ['78ce041', '65be38d', '036e882', '4be9113', '00cc1df', '2389819', 'c7d762f']
+HOOK_COMMITS = ['78ce041', '65be38d', '036e882', '4be9113', '00cc1df', '2389819', 'c7d762f', '404f48f']
 
 NOT_APPLICABLE = {}
 
@@ -184,5 +184,20 @@ CLAIMS = {
         'note': TB + 'ztyp SSZ decoding is represented by its limits only; go-ethereum rlp and hex-prefix decoding are re-modelled and compared; the header source is a '
                 'parameter (its honesty is C02). Soundness is relative to the hash function: the specification is hash equations, collisions are not excluded.',
         'technique': 'Lean 4 proof (functional induction on the traversal, induction over the proof list, iff with an inductive chain specification) + quirk-switch model + differential correspondence',
+    },
+    'C14': {
+        'text': 'Lean 4 theorems about a schema-driven SSZ codec (raw and little-endian fixed slots, chunk vectors, byte lists, fixed-item lists, offset-table '
+                'lists, bit lists, packed nibble paths, over the generic container layer), for EVERY schema with consistent limits: the encoding of an in-limit '
+                'value decodes to it (no side condition for 46 of the 49 schemas of the repository); a value beyond a limit is refused by the encoder or its '
+                'encoding is refused by the decoder; whatever a decoder accepts is within the declared limits (64 keys, 2048-byte keys and ENRs, 32 ENRs, 256 '
+                'distances, 1100-byte payload, 2-byte connection id: one corollary per wire message; every ping payload fits PING); whatever the ideal decoder '
+                'accepts re-encodes to the same bytes, and so does whatever today\'s decoders accept for 38 of the 49 types. The three ways today\'s decoders are '
+                'not canonical / do not round-trip (00000000 taken for an empty list by fastssz; trailing bytes ignored by fixed-size ztyp containers; the empty '
+                'PortalReceipts / EphemeralHeaderPayload refused) are switches of the model with decided witnesses, reported as known findings. The model is tied '
+                'to the Go code on every run by step equality in both directions on ~26k generated values and byte strings for 49 types (history, beacon keys and '
+                'state included), every limit probed at max and max+1; the fork-tagged beacon containers are checked Go-side.',
+        'note': TB + 'schemas are transcribed by hand (no extractor); fastssz/ztyp helpers are re-modelled; the zrnt light-client objects inside the beacon wrappers '
+                'are exercised (round trip, digest dispatch, limits, canonical re-encoding), not modelled; values of 4 GiB and more are outside the theorems.',
+        'technique': 'Lean 4 proof (generic container round-trip/canonicity + field codecs, induction over slot lists, size bounds) + differential correspondence in both directions',
     },
 }
